@@ -275,9 +275,30 @@ def check_mesh(ctx, name, mesh, fixed, with_model=True):
     return first_fail
 
 
+def after_smoothing(ctx, name, mesh, fixed, with_model=True):
+    """"smoothed" meshes of the quantifier, made from a mesh that stays in use: the smoothed mesh obeys the identities,
+    and so does the mesh `smooth` was called on (it is the same mesh as before: same sites, same geometry)"""
+    before = {k: np.array(v, copy=True) for k, v in dict(sites=mesh.sites, areas=mesh.areas, lengths=mesh.edge_mesh.edge_lengths, centers=mesh.edge_mesh.centers).items()}
+    sm = mesh.smooth(3)
+    first = None
+    now = dict(sites=mesh.sites, areas=mesh.areas, lengths=mesh.edge_mesh.edge_lengths, centers=mesh.edge_mesh.centers)
+    moved = [k for k in before if not np.array_equal(before[k], now[k])]
+    ctx.case((name, "smooth-leaves-original"), nontrivial=True)
+    if moved or np.shares_memory(sm.sites, mesh.sites):
+        rp = dict(mesh=name, changed=moved, max_site_shift=float(np.abs(before["sites"] - mesh.sites).max()))
+        ctx.fail("identity:smooth_mutates_mesh", f"Mesh.smooth changed the mesh it was called on ({moved or 'shared memory'}); its gradient is no longer exact on linear functions", rp)
+        first = dict(key="identity:smooth_mutates_mesh", what="smooth mutates", **rp)
+    f2 = check_mesh(ctx, name + ":smoothed", sm, fixed, with_model=with_model)
+    f3 = check_mesh(ctx, name + ":after-smooth-was-called-on-it", mesh, fixed, with_model=False) if not moved else None
+    return first or f2 or f3
+
+
 def run(ctx):
-    for name, mesh, fixed in zoo.mesh_zoo(ctx.rng, quick=ctx.quick):
+    zoo_ = zoo.mesh_zoo(ctx.rng, quick=ctx.quick)
+    for name, mesh, fixed in zoo_:
         check_mesh(ctx, name, mesh, fixed)
+    for name, mesh, fixed in [z for z in zoo_ if z[0] in ("bar_hole", "random_delaunay", "ring")][: (2 if ctx.quick else 3)]:
+        after_smoothing(ctx, name, mesh, fixed)
     if not ctx.quick:
         for rep in range(6):
             for name, mesh, fixed in zoo.mesh_zoo(ctx.rng, quick=False):
